@@ -1,5 +1,6 @@
 import PysamlModel.Core.Proto
 import PysamlModel.Model.Xsw
+import PysamlModel.Model.XswFlow
 import PysamlModel.Spec.C02
 open Lean Proto Xsw
 
@@ -22,6 +23,30 @@ partial def parseTree (j : Json) : XNode :=
             | _ => none
           .elem (strD j "t") attrs ((arrD j "c").map parseTree)
 
+/-- the flow of `parse_assertion` (Model/XswFlow.lean) on the received and the decrypted document; the check is
+    `Xsw.checkSignature`, its two per-call inputs (schema verdict of the re-serialised item, presence of a metadata
+    key for the issuer) come from the implementation's call on the same (document, ID) where there is one -/
+def handleFlow (fl : Json) : Json :=
+  if (str? fl "skip").isSome then Json.mkObj [("skip", Json.bool true)] else
+  let recv := parseTree ((obj? fl "recv").getD Json.null)
+  let decr := match obj? fl "decr" with
+    | some t => if t.isNull then recv else parseTree t
+    | none => recv
+  let hints := arrD fl "hints"
+  let idAt := fun (d : Bool) (p : Path) => (nodeAt (if d then decr else recv) p).bind (·.attr "ID")
+  let hintFor := fun (d : Bool) (p : Path) =>
+    hints.find? (fun h => boolD h "decr" == d && str? h "id" == idAt d p)
+  let chk := fun (d : Bool) (p : Path) =>
+    let schemaOk := match hintFor d p with | some h => boolD h "schema_ok" true | none => true
+    let keyOk := match hintFor d p with | some h => (nat? h "key").isSome | none => true
+    keyOk && checkSignature (if d then decr else recv) p tAssertion 1 schemaOk
+  let r := flow recv decr (boolD fl "require_sig" true) chk
+  Json.mkObj [
+    ("calls", jarr (r.calls.map fun (c : Bool × Path × Bool) => Json.mkObj [("decr", Json.bool c.1), ("id", optStr (idAt c.1 c.2.1)),
+        ("path", jarr (c.2.1.map (fun (n : Nat) => toJson n))), ("result", Json.bool c.2.2)])),
+    ("verdict", Json.str (if r.adopted.isSome then "adopted" else "refused")),
+    ("adopted", jarr ((r.adopted.getD []).map fun (a : Adopted) => optStr (idAt a.isDecr a.path)))]
+
 def handle (line : Json) : Json :=
   let impl := (obj? line "impl").getD Json.null
   let calls := arrD impl "calls"
@@ -34,8 +59,12 @@ def handle (line : Json) : Json :=
   let origs := (arrD impl "origs").map Json.compress
   let out : Option String := if strD outcome "r" == "identity" then some (Json.compress outcome) else none
   let accepted := results.filter id
-  Json.mkObj [("model", Json.mkObj [("calls", jarr (results.map Json.bool))]),
-    ("path", Json.str (toString calls.length ++ "calls/" ++ toString accepted.length ++ "ok/" ++ strD outcome "r")),
+  let flowJ := match obj? impl "flow" with
+    | some fl => if fl.isNull then Json.null else handleFlow fl
+    | none => Json.null
+  let fpath := match str? flowJ "verdict" with | some v => "/flow:" ++ v | none => ""
+  Json.mkObj [("model", Json.mkObj [("calls", jarr (results.map Json.bool)), ("flow", flowJ)]),
+    ("path", Json.str (toString calls.length ++ "calls/" ++ toString accepted.length ++ "ok/" ++ strD outcome "r" ++ fpath)),
     ("spec_model", true),
     ("spec_impl", specCovered origs out)]
 
